@@ -251,3 +251,18 @@ func (w *World) hasInScopeCaller(fn *ssa.Function) bool {
 	}
 	return w.callers[fn]
 }
+
+// clauseTags: a clause's own tags, or (for unlabelled support clauses such as loop invariants) the union of the
+// tags of the enclosing function's postconditions: a failing support obligation fails the properties it supports.
+func (fx *FnExec) clauseTags(c *Clause) []string {
+	if len(c.Tags) > 0 {
+		return c.Tags
+	}
+	top := fx.topFx()
+	if top.con != nil {
+		if t := frameTags(top.con); len(t) > 0 {
+			return t
+		}
+	}
+	return fx.e.autoTags("contract", fx.fn)
+}
